@@ -30,7 +30,7 @@ theorem step_plain (ts : List Tok) (prev : Option Char) (c : Char) (rest : Text)
   obtain ⟨⟨h1, h2⟩, h3⟩ := h
   rw [parseAux]
   · simp [h3]
-  all_goals (intros; first | exact absurd ‹c = '*'› h1 | exact absurd ‹c = '?'› h2)
+  all_goals (intros; first | exact absurd ‹c = '*'› h1 | exact absurd ‹c = '?'› h2 | (rename_i hc _; rw [hc] at h3; exact absurd h3 (by decide)))
 
 /-- a literal stretch becomes its UTF-8 bytes, one `lit` token each, whatever precedes and follows -/
 theorem parseAux_plain (l : Text) (hl : ∀ c ∈ l, plain c = true) (ts : List Tok) (prev : Option Char) (rest : Text) :
@@ -39,6 +39,25 @@ theorem parseAux_plain (l : Text) (hl : ∀ c ∈ l, plain c = true) (ts : List 
   | nil => simp [lits, encode, lastOr]
   | cons c cs ih =>
     rw [List.cons_append, step_plain _ _ _ _ (hl c (by simp)), ih (fun d hd => hl d (by simp [hd]))]
+    simp [lits, encode, lastOr, List.map_append, List.reverse_append, List.map_reverse]
+
+/-- every character of a path preceded by a backslash -/
+def escapeAll : Text → Text
+  | [] => []
+  | c :: cs => '\\' :: c :: escapeAll cs
+
+theorem step_escaped (ts : List Tok) (prev : Option Char) (c : Char) (rest : Text) :
+    parseAux ts prev ('\\' :: c :: rest) = parseAux ((String.utf8EncodeChar c).reverse.map .lit ++ ts) (some c) rest := by
+  rw [parseAux]
+  all_goals (intros; first | (rename_i h; exact absurd h (by decide)) | skip)
+
+/-- an escaped stretch becomes the UTF-8 bytes of its characters, whatever they are (`*`, `?`, `[`, `{`, `\` included) -/
+theorem parseAux_escaped (l : Text) (ts : List Tok) (prev : Option Char) (rest : Text) :
+    parseAux ts prev (escapeAll l ++ rest) = parseAux ((lits l).reverse ++ ts) (lastOr prev l) rest := by
+  induction l generalizing ts prev with
+  | nil => simp [lits, encode, lastOr, escapeAll]
+  | cons c cs ih =>
+    rw [escapeAll, List.cons_append, List.cons_append, step_escaped, ih]
     simp [lits, encode, lastOr, List.map_append, List.reverse_append, List.map_reverse]
 
 theorem lit_ne (l : Text) : lits l ≠ [.recPrefix] := by
